@@ -297,7 +297,7 @@ impl SubCtl {
     }
 }
 
-struct Scenario<'a> { cluster: &'a ActorRef<ClusterActor>, db: Database, parts: Vec<Part>, sub: Option<SubCtl>, err: Option<String> }
+struct Scenario<'a> { cluster: &'a ActorRef<ClusterActor>, db: Database, parts: Vec<Part>, sub: Option<SubCtl>, err: Option<String>, nb: Vec<u64> }
 
 impl Scenario<'_> {
     async fn settle(&mut self) -> Status {
@@ -338,6 +338,10 @@ impl Scenario<'_> {
         let sl = |v: &[u8]| v.iter().map(|d| (b'0' + d) as char).collect::<String>();
         match st {
             Step::Append(..) | Step::Exec(..) if self.lazy_history(matcher) => vec![],
+            // a broadcast of about the channel's capacity or more is only part of the modelled schedules while
+            // the task cannot receive (pause point / closed window): otherwise how much it lags is a race
+            Step::Exec(p, s) if self.sub.as_ref().is_some_and(|u| !matches!(u.status(), Status::Gate | Status::Window | Status::Dead))
+                && self.parts[*p as usize].conf.len() as u64 + s.len() as u64 - self.nb[*p as usize] > 900 => vec![],
             Step::Append(p, s) => {
                 if let Err(e) = db_append(&self.db.clone(), &mut self.parts, *p, &Tx { bits: vec![false; s.len()], streams: s.clone() }).await { self.err.get_or_insert(format!("ERR:{e}").replace([' ', '\t', '\n'], "_")); }
                 self.settle().await;
@@ -369,6 +373,7 @@ impl Scenario<'_> {
                 }
                 let b = self.wait_conf_done(from, *p).await;
                 let w = self.poll_wm(*p).await;
+                if b > 0 { self.nb[*p as usize] = w; }
                 self.settle().await;
                 vec![format!("x{p}:{}={w}/{b}", sl(s))]
             }
@@ -455,14 +460,15 @@ impl Scenario<'_> {
     }
 }
 
-async fn run_scenario(cluster: &mut Option<ActorRef<ClusterActor>>, keep: &mut Vec<(tempfile::TempDir, Database)>, line: &str) -> (String, String) {
+/// Err = the environment failed (no disk space, no temp dir, database could not be prepared): not an observation
+async fn run_scenario(root: &std::path::Path, cluster: &mut Option<ActorRef<ClusterActor>>, keep: &mut Vec<(tempfile::TempDir, Database)>, line: &str) -> Result<(String, String), String> {
     let t: Vec<&str> = line.split_whitespace().collect();
-    if t.len() != 5 || t[0] != "c09" { return (line.to_string(), "BADCASE".into()); }
-    let (Some(layout), Some((matcher, window)), Some(sched)) = (parse_layout(t[2]), parse_sub(t[3]), parse_sched(t[4])) else { return (line.to_string(), "BADCASE".into()) };
+    if t.len() != 5 || t[0] != "c09" { return Ok((line.to_string(), "BADCASE".into())); }
+    let (Some(layout), Some((matcher, window)), Some(sched)) = (parse_layout(t[2]), parse_sub(t[3]), parse_sched(t[4])) else { return Ok((line.to_string(), "BADCASE".into())) };
     let bg = t[1] == "1";
-    let fail = |e: String| (line.to_string(), format!("ERR:{}", e.replace([' ', '\t', '\n'], "_")));
-    let dir = match tempfile::tempdir() { Ok(d) => d, Err(e) => return fail(e.to_string()) };
-    let db = match DatabaseBuilder::new().segment_size_bytes(8 * 1024 * 1024).total_buckets(4).bucket_ids_from_range(0..4).reader_threads(2).writer_threads(2).sync_interval(Duration::from_micros(200)).sync_idle_interval(Duration::from_micros(200)).min_sync_bytes(1).open(dir.path()) { Ok(d) => d, Err(e) => return fail(format!("open: {e}")) };
+    let fail = |e: String| Err(format!("{}: {e}", &line[..line.len().min(120)]));
+    let dir = match tempfile::tempdir_in(root) { Ok(d) => d, Err(e) => return fail(e.to_string()) };
+    let db = match DatabaseBuilder::new().segment_size_bytes(1024 * 1024).total_buckets(4).bucket_ids_from_range(0..4).reader_threads(2).writer_threads(2).sync_interval(Duration::from_micros(200)).sync_idle_interval(Duration::from_micros(200)).min_sync_bytes(1).open(dir.path()) { Ok(d) => d, Err(e) => return fail(format!("open: {e}")) };
     let mut parts: Vec<Part> = (0..NP).map(|_| Part::default()).collect();
     for (p, txs) in layout.iter().enumerate() {
         for tx in txs { if let Err(e) = db_append(&db, &mut parts, p as u16, tx).await { return fail(e); } }
@@ -484,7 +490,7 @@ async fn run_scenario(cluster: &mut Option<ActorRef<ClusterActor>>, keep: &mut V
     }
     let c = cluster.as_ref().unwrap();
     { let mut g = hooks().0.lock().unwrap_or_else(|e| e.into_inner()); g.log.clear(); g.released.clear(); g.free.clear(); g.all_free = false; }
-    let mut sc = Scenario { cluster: c, db: db.clone(), parts, sub: None, err: None };
+    let mut sc = Scenario { cluster: c, db: db.clone(), parts, sub: None, err: None, nb: vec![0; NP as usize] };
     // the initial watermarks come from the on-disk counts
     for p in 0..NP { sc.poll_wm(p).await; }
     let mut bg_keep = None;
@@ -519,26 +525,31 @@ async fn run_scenario(cluster: &mut Option<ActorRef<ClusterActor>>, keep: &mut V
     drop(bg_keep);
     keep.push((dir, db));
     let ann_case = format!("c09 {} {} {} {}", t[1], t[2], t[3], if ann.is_empty() { "-".to_string() } else { ann.join(",") });
-    (ann_case, o)
+    if o.contains("ENOSPC") || o.contains("No_space_left") || o.contains("Too_many_open_files") { return Err(format!("{}: {}", &line[..line.len().min(120)], &o[..o.len().min(200)])); }
+    Ok((ann_case, o))
 }
 
 fn child(a: &Args, out: &mut Out) {
     let lines: Vec<String> = std::fs::read_to_string(&a.rest[0]).unwrap().lines().map(|l| l.trim().to_string()).filter(|l| !l.is_empty() && !l.starts_with('#')).collect();
     install_hooks();
+    // scratch databases live under the parent's directory (removed by the parent whatever happens to this process)
+    let root = std::path::PathBuf::from(a.rest.get(1).cloned().unwrap_or_else(|| std::env::temp_dir().to_string_lossy().into_owned()));
     let rt = tokio::runtime::Builder::new_multi_thread().worker_threads(6).enable_all().build().unwrap();
     rt.block_on(async {
         let mut cluster = None;
         let mut keep = Vec::new();
         for l in &lines {
-            let (c, o) = match tokio::time::timeout(Duration::from_secs(400), run_scenario(&mut cluster, &mut keep, l)).await {
-                Ok(r) => r,
+            let (c, o) = match tokio::time::timeout(Duration::from_secs(900), run_scenario(&root, &mut cluster, &mut keep, l)).await {
+                Ok(Ok(r)) => r,
+                Ok(Err(e)) => { eprintln!("c09: environment failure: {e}"); out.flush(); drop(keep); std::process::exit(3); }
                 Err(_) => (l.clone(), "TIMEOUT".to_string()),
             };
             out.case(&c, &o);
             out.flush();
             // old databases are only needed until the next reset has replaced them
-            while keep.len() > 2 { let (d, db) = keep.remove(0); drop(db); drop(d); }
+            while keep.len() > 1 { let (d, db) = keep.remove(0); drop(db); drop(d); }
         }
+        drop(keep);
     });
     out.flush();
     std::process::exit(0);
@@ -556,21 +567,25 @@ fn run_lines(a: &Args, lines: &[String], out: &mut Out) {
         let f = tmp.path().join(format!("j{j}.cases"));
         let mut w = std::fs::File::create(&f).unwrap();
         for &i in &idx { writeln!(w, "{}", lines[i]).unwrap(); }
-        let k = std::process::Command::new(&exe).args([&a.prop, "child", &a.seed.to_string()]).arg(&f)
-            .stdout(std::process::Stdio::piped()).stderr(std::process::Stdio::null()).spawn().unwrap();
+        let k = std::process::Command::new(&exe).args([&a.prop, "child", &a.seed.to_string()]).arg(&f).arg(tmp.path())
+            .stdout(std::process::Stdio::piped()).stderr(std::process::Stdio::piped()).spawn().unwrap();
         kids.push((idx, k));
     }
     let mut res: Vec<Option<(String, String)>> = vec![None; lines.len()];
+    let mut env_failed = None;
     for (idx, k) in kids {
         let o = k.wait_with_output().unwrap();
+        if o.status.code() == Some(3) { env_failed = Some(String::from_utf8_lossy(&o.stderr).lines().last().unwrap_or("").to_string()); }
         let text = String::from_utf8_lossy(&o.stdout);
         for (n, line) in text.lines().enumerate() {
             if let (Some(&i), Some((c, ob))) = (idx.get(n), line.split_once('\t')) { res[i] = Some((c.to_string(), ob.to_string())); }
         }
     }
+    if let Some(e) = env_failed { eprintln!("c09: a child process stopped on an environment failure ({e}); no verdict"); out.flush(); drop(tmp); std::process::exit(3); }
     for (i, r) in res.into_iter().enumerate() {
         match r { Some((c, o)) => out.case(&c, &o), None => out.case(&lines[i], "CRASH") }
     }
+    drop(tmp);
 }
 
 fn main() {
